@@ -396,4 +396,19 @@ theorem struct_step {s : Fetcher} (h : Struct s) (e : Ev) (hok : EvOkS s e) : St
         · intro x hx; simp only [List.mem_filter] at hx ⊢; exact ⟨hA x hx.1, hx.2⟩
         · intro _ x hx; simp only [List.mem_filter] at hx ⊢; exact ⟨hO x hx.1, hx.2⟩
 
+theorem stop_out (s : Fetcher) : (stop s).out = s.out := by unfold stop; split <;> rfl
+
+/-- the `while` loop of `_do_loop` exits before the fuel of the model is used up -/
+theorem whileLoop_fuel {s : Fetcher} (h : Out.exc .fuel ∉ s.out) (fuel : Nat) (hf : mu s < fuel) :
+    Out.exc .fuel ∉ (whileLoop fuel s).out := by
+  have key : ∀ fuel s, mu s < fuel → Out.exc .fuel ∉ s.out → Out.exc .fuel ∉ (whileLoop fuel s).out := by
+    apply whileLoop_ind (P := fun s => Out.exc .fuel ∉ s.out) (Q := fun s => Out.exc .fuel ∉ s.out)
+    · intro s sh w h _ _; simpa [useShare] using h
+    · intro s h _; unfold askMore; split <;> simpa using h
+    · intro s h _ _ _ _; show Out.exc .fuel ∉ (stop s).out; rw [stop_out]; exact h
+    · intro s h _ _ _; unfold askMore; split <;> simpa using h
+    · intro s h _ _; show Out.exc .fuel ∉ (stop s).out; rw [stop_out]; exact h
+    · intro s h _ _; exact h
+  exact key fuel s hf h
+
 end Tahoe.Fetch
